@@ -18,6 +18,20 @@ with tempfile.TemporaryDirectory() as td:
         if not any(ch.tag in ("failure", "error", "skipped") for ch in tc):
             passed.add(f"{tc.get('classname')}::{tc.get('name')}")
 missing = [t for t in base["stable_pass"] if t not in passed]
+for attempt in range(2):  # the pty-based tests_rf tests are timing sensitive under load: re-run only the missing ones
+    if not missing or len(missing) > 12: break
+    ids = [t.split("::")[0].replace(".", "/") + ".py::" + t.split("::", 1)[1] for t in missing]
+    env = dict(os.environ, PYTHONPATH=f"{tree}/src", PYTHONDONTWRITEBYTECODE="1")
+    with tempfile.TemporaryDirectory() as td:
+        xmlp = os.path.join(td, "j.xml")
+        subprocess.run(["/venv/bin/python", "-m", "pytest", "-q", "-p", "no:cacheprovider", "--timeout=900", f"--junitxml={xmlp}", *ids],
+                       cwd=tree, env=env, stdout=subprocess.PIPE, stderr=subprocess.STDOUT, text=True)
+        for tc in ET.parse(xmlp).getroot().iter("testcase"):
+            if not any(ch.tag in ("failure", "error", "skipped") for ch in tc):
+                passed.add(f"{tc.get('classname')}::{tc.get('name')}")
+    still = [t for t in missing if t not in passed]
+    print(f"re-run {attempt+1} of {len(missing)} missing test(s): {len(missing)-len(still)} passed")
+    missing = still
 print(f"stable_pass: {len(base['stable_pass'])}, missing: {len(missing)}")
 for t in missing: print("  MISSING", t)
 sys.exit(1 if missing else 0)
